@@ -212,12 +212,10 @@ pub fn run() {
         let irs: BTreeSet<u8> = comp.iter().map(|&i| nodes[i].1).collect();
         let addrs: BTreeSet<u16> = comp.iter().map(|&i| nodes[i].0).collect();
         let ir = *irs.iter().next().unwrap();
-        let expected: Option<BTreeSet<u16>> = match ir >> 4 {
-            0xB => Some([0x165u16, 0x166, 0x167, 0x168].into_iter().collect()),
-            0xC => Some([0x187u16, 0x188].into_iter().collect()),
-            _ => None,
-        };
-        if irs.len() != 1 || expected.as_ref() != Some(&addrs) {
+        // the statement allows exactly the data-driven MUL (0xB0-0xBF) and DIV (0xC0-0xCF) loops;
+        // the addresses inside those routines are reported, not prescribed
+        let allowed_block = matches!(ir >> 4, 0xB | 0xC);
+        if irs.len() != 1 || !allowed_block {
             ctx.violation(
                 format!("cycle/unexpected/block-{:x}", ir >> 4),
                 format!("micro-program cycle without a fetch for defined opcodes: IRs {:x?} addresses {:x?} (only the MUL loop 165-168 and the DIV loop 187-188 may cycle)", irs, addrs),
@@ -227,9 +225,18 @@ pub fn run() {
         cyc_addr_sets.entry(ir >> 4).or_default().extend(addrs);
     }
     // longest fetch-free path once the loop-closing edges 168->165 and 188->187 are cut
-    let cut = |from: u16, to: u16| (from == 0x168 && to == 0x165) || (from == 0x188 && to == 0x187);
+    // loop-closing edges = edges inside a cyclic SCC that go to a lower address (the MUL/DIV back edges)
+    let scc_of: HashMap<usize, usize> = sccs.iter().enumerate().flat_map(|(ci, c)| c.iter().map(move |&n| (n, ci))).collect();
+    let cyclic_scc: HashSet<usize> = sccs.iter().enumerate().filter(|(_, c)| c.len() > 1 || adj[c[0]].contains(&c[0])).map(|(ci, _)| ci).collect();
+    let node_of: HashMap<Node, usize> = idx.clone();
+    let cut = |from: u16, to: u16, ir: u8| -> bool {
+        match (node_of.get(&(from, ir)), node_of.get(&(to, ir))) {
+            (Some(a), Some(b)) => scc_of[a] == scc_of[b] && cyclic_scc.contains(&scc_of[a]) && to <= from,
+            _ => false,
+        }
+    };
     let mut memo: HashMap<usize, Option<u32>> = HashMap::new();
-    fn longest(i: usize, adj: &Vec<Vec<usize>>, nodes: &Vec<Node>, cut: &dyn Fn(u16, u16) -> bool, memo: &mut HashMap<usize, Option<u32>>, stack: &mut HashSet<usize>) -> Option<u32> {
+    fn longest(i: usize, adj: &Vec<Vec<usize>>, nodes: &Vec<Node>, cut: &dyn Fn(u16, u16, u8) -> bool, memo: &mut HashMap<usize, Option<u32>>, stack: &mut HashSet<usize>) -> Option<u32> {
         if let Some(v) = memo.get(&i) {
             return *v;
         }
@@ -239,7 +246,7 @@ pub fn run() {
         let mut best = 1u32; // one step leaves this word (to a fetch word or another word)
         let mut res = Some(0);
         for &j in &adj[i] {
-            if cut(nodes[i].0, nodes[j].0) {
+            if cut(nodes[i].0, nodes[j].0, nodes[i].1) {
                 continue;
             }
             match longest(j, adj, nodes, cut, memo, stack) {
